@@ -219,6 +219,34 @@ def rand_pair(rng, i):
                 return [p0, (p0[0] + sx * a, p0[1] + sy * b), (p3[0] - sx * a, p3[1] - sy * b), p3]
             return [p0, (cx - sx * a, cy + sy * b) if False else (cx, cy), p3] if False else [p0, (p0[0] + sx * a, p0[1] + sy * b), (p3[0] - sx * a, p3[1] - sy * b), p3]
         return sym(1, 1), sym(1, -1)
+    if i % 12 == 9:
+        # operands of very different kinds: an ordinary curve and either a straight axis-parallel one (a bounding box of zero area from
+        # the start) or a curve a thousand times smaller, through a point of the first away from its middle
+        P = rand_curve(rng)
+        if rng.random() < 0.5:
+            Q = straight_axis_curve(rng, rng.random() < 0.5)
+        else:
+            Q = [(x / 1000.0, y / 1000.0) for x, y in rand_curve(rng)]
+        t, u = rng.choice([rng.uniform(0.1, 0.35), rng.uniform(0.65, 0.9)]), rng.uniform(0.2, 0.8)
+        a, b = cr.bez(P, t), cr.bez(Q, u)
+        Q = [(x + a[0] - b[0], y + a[1] - b[1]) for x, y in Q]
+        return (P, Q) if rng.random() < 0.6 else (Q, P)
+    if i % 12 == 5:
+        # a wide shallow arch crossed twice by a tall narrow arch: the two crossings are 0.03 .. 0.08 apart in the wide curve's parameter
+        # (far enough to count as two, close enough to share a tenth) and far apart in the narrow curve's
+        x0, y0 = float(rng.randint(-100, 100)), float(rng.randint(-100, 100))
+        W, H = float(rng.randint(600, 1200)), float(rng.randint(150, 300))
+        c = rng.uniform(0.15, 0.85)
+        w = W * rng.uniform(0.04, 0.09)
+        P = [(x0, y0), (x0 + W / 2, y0 + H), (x0 + W, y0)]
+        hb = H * rng.uniform(1.5, 2.5)
+        Q = [(x0 + c * W - w / 2, y0), (x0 + c * W, y0 + hb), (x0 + c * W + w / 2, y0)]
+        if rng.random() < 0.5:
+            ce = lambda q: [q[0], ((q[0][0] + 2 * q[1][0]) / 3, (q[0][1] + 2 * q[1][1]) / 3), ((2 * q[1][0] + q[2][0]) / 3, (2 * q[1][1] + q[2][1]) / 3), q[2]]
+            P, Q = ce(P), ce(Q)
+        if rng.random() < 0.3:
+            P, Q = [(y, x) for x, y in P], [(y, x) for x, y in Q]
+        return (P, Q) if rng.random() < 0.7 else (Q, P)
     P = rand_curve(rng)
     Q = rand_curve(rng)
     if i % 4 == 0:
@@ -252,6 +280,18 @@ def rand_closed(rng):
         a, b = nodes[k], nodes[(k + 1) % n]
         order = rng.choice([2, 3, 4, 4])
         inner = [(float(rng.randint(-120, 120)), float(rng.randint(-120, 120))) for _ in range(order - 2)]
+        if k == 0 and rng.random() < 0.6:
+            # a looping cubic between the first two nodes, of either rotational sense (mirror image) and either direction of travel:
+            # a similarity maps the loop's ends onto the nodes
+            L = rand_loop(rng)
+            if rng.random() < 0.5:
+                L = [(x, -y) for x, y in L]
+            if rng.random() < 0.5:
+                L = L[::-1]
+            z = lambda p: complex(p[0], p[1])
+            m = (z(b) - z(a)) / (z(L[3]) - z(L[0]))
+            w = [z(a) + m * (z(q) - z(L[0])) for q in L]
+            inner = [(w[1].real, w[1].imag), (w[2].real, w[2].imag)]
         segs.append([a] + inner + [b])
     return segs
 
@@ -341,15 +381,17 @@ def run_one(kind, inp):
 
 def search(ctx, budget):
     rng = ctx.rng
-    n = 120 * ctx.scale * budget
+    n = 192 * ctx.scale * budget
     seen = set()
     nontriv = 0
     skipped = {}
     viol, samples = [], []
+    npairs = 0
     for i in range(n):
         r = i % 6
         if r < 3:
-            P, Q = rand_pair(rng, i)
+            P, Q = rand_pair(rng, npairs)          # the families of rand_pair are keyed on the running number of pairs
+            npairs += 1
             kind, inp = "pair", {"P": P, "Q": Q}
         elif r == 3:
             kind, inp = "loop", {"P": rand_loop(rng) if rng.random() < 0.7 else rand_curve(rng, "int")[:4] if False else rand_loop(rng)}
